@@ -142,13 +142,76 @@ func VerifC06VersionsPath() {
 	}
 	_, h2, err := t1.Commit(ctx, ns, 2)
 	symx.Assert(err == nil, "Commit of version 2 failed")
-	t1.Close()
 	r2 := node.Root{Namespace: ns, Version: 2, Type: node.RootTypeState, Hash: h2}
+	// cfg chain=1 (hash-keyed back end only: the path-keyed one refuses child roots within a version): version 2
+	// is reached in two commits, r1 -> M (the batch above) -> r2 = M + one more operation, and a competing child
+	// of M, committed BEFORE r2, is discarded at finalisation
+	var rChild *node.Root
+	var cChild []c06KV
+	if symx.Cfg("chain", 0) == 1 {
+		rM := r2
+		tc := mkvs.NewWithRoot(nil, db, rM)
+		ckey, cval := symx.Bytes("childKey", 1), symx.Bytes("childVal", 1)
+		symx.Assert(tc.Insert(ctx, ckey, cval) == nil, "Insert failed")
+		cChild = c06Set(append([]c06KV{}, c2...), ckey, cval)
+		_, hc, err := tc.Commit(ctx, ns, 2)
+		symx.Assert(err == nil, "Commit of the competing child root failed")
+		tc.Close()
+		key := symx.Bytes("chainKey", 1)
+		if symx.Bool("chainRemove") {
+			symx.Assert(t1.Remove(ctx, key) == nil, "Remove failed")
+			c2 = c06Del(c2, key)
+		} else {
+			val := symx.Bytes("chainVal", 1)
+			symx.Assert(t1.Insert(ctx, key, val) == nil, "Insert failed")
+			c2 = c06Set(c2, key, val)
+		}
+		_, h2, err = t1.Commit(ctx, ns, 2)
+		symx.Assert(err == nil, "second Commit of version 2 failed")
+		r2 = node.Root{Namespace: ns, Version: 2, Type: node.RootTypeState, Hash: h2}
+		if hc != h2 && hc != rM.Hash {
+			rChild = &node.Root{Namespace: ns, Version: 2, Type: node.RootTypeState, Hash: hc}
+			symx.Cover("chain-competitor")
+		}
+	}
+	t1.Close()
+	// cfg sibling2=1: a competing root at version 2, derived from version 1 by its own symbolic batch (it may remove
+	// and re-create nodes that the finalized root keeps from version 1), which is not going to be finalized
+	var rSibling2 *node.Root
+	var cSibling2 []c06KV
+	if symx.Cfg("sibling2", 0) == 1 {
+		ts2 := mkvs.NewWithRoot(nil, db, r1)
+		cSibling2 = append([]c06KV{}, c1...)
+		for i := 0; i < symx.Cfg("sn", 2); i++ {
+			key := symx.Bytes(symx.N("sopKey", i), 1)
+			if symx.Bool(symx.N("sopRemove", i)) {
+				symx.Assert(ts2.Remove(ctx, key) == nil, "Remove failed")
+				cSibling2 = c06Del(cSibling2, key)
+			} else {
+				val := symx.Bytes(symx.N("sopVal", i), 1)
+				symx.Assert(ts2.Insert(ctx, key, val) == nil, "Insert failed")
+				cSibling2 = c06Set(cSibling2, key, val)
+			}
+		}
+		_, hs2, err := ts2.Commit(ctx, ns, 2)
+		symx.Assert(err == nil, "Commit of the competing root at version 2 failed")
+		ts2.Close()
+		if hs2 != h2 {
+			rSibling2 = &node.Root{Namespace: ns, Version: 2, Type: node.RootTypeState, Hash: hs2}
+			symx.Cover("sibling2")
+		}
+	}
 	// pruning is refused before the next version is finalized
 	symx.Assert(db.Prune(1) != nil, "the only finalized version was pruned")
 	symx.Assert(db.Finalize([]node.Root{r2}) == nil, "Finalize of version 2 failed")
 	c06CheckRoot(ctx, db, r1, c1, probe, "after finalizing version 2 (version 1)")
 	c06CheckRoot(ctx, db, r2, c2, probe, "after finalizing version 2")
+	if rSibling2 != nil && db.HasRoot(*rSibling2) {
+		c06CheckRoot(ctx, db, *rSibling2, cSibling2, probe, "non-finalized root of version 2 still reported present")
+	}
+	if rChild != nil && db.HasRoot(*rChild) {
+		c06CheckRoot(ctx, db, *rChild, cChild, probe, "non-finalized child root of version 2 still reported present")
+	}
 	symx.Cover("two-versions")
 
 	if symx.Bool("prune") {
@@ -209,10 +272,40 @@ func VerifC13ServedPath() {
 			symx.Assert(t1.Insert(ctx, key, symx.Bytes(symx.N("opVal", i), 1)) == nil, "Insert failed")
 		}
 	}
+	// cfg pending=1: a competing root of version 2 is committed first (so the announced root is not the first
+	// candidate of its version), and the write log is also requested while version 2 is not finalized yet
+	pending := symx.Cfg("pending", 0) == 1
+	if pending {
+		tc := mkvs.NewWithRoot(nil, db, r1)
+		for i := 0; i < symx.Cfg("cn", 1); i++ {
+			key := symx.Bytes(symx.N("compKey", i), 1)
+			if symx.Bool(symx.N("compRemove", i)) {
+				symx.Assert(tc.Remove(ctx, key) == nil, "Remove failed")
+			} else {
+				symx.Assert(tc.Insert(ctx, key, symx.Bytes(symx.N("compVal", i), 1)) == nil, "Insert failed")
+			}
+		}
+		_, _, err := tc.Commit(ctx, ns, 2)
+		symx.Assert(err == nil, "Commit of the competing root failed")
+		tc.Close()
+	}
 	_, h2, err := t1.Commit(ctx, ns, 2)
 	symx.Assert(err == nil, "Commit of version 2 failed")
 	t1.Close()
 	r2 := node.Root{Namespace: ns, Version: 2, Type: node.RootTypeState, Hash: h2}
+	if pending {
+		if pit, err := db.GetWriteLog(ctx, r1, r2); err == nil {
+			rp := mkvs.NewWithRoot(nil, db, r1)
+			if rp.ApplyWriteLog(ctx, pit) == nil {
+				_, got, err := rp.Commit(ctx, ns, 2, mkvs.NoPersist())
+				symx.Assert(err != nil || got == h2, "write log served for a root that is not finalized yet does not lead to that root")
+			}
+			rp.Close()
+			symx.Cover("pending-served")
+		} else {
+			symx.Cover("pending-refused")
+		}
+	}
 	symx.Assert(db.Finalize([]node.Root{r2}) == nil, "Finalize of version 2 failed")
 
 	it, err := db.GetWriteLog(ctx, r1, r2)
